@@ -705,6 +705,31 @@ def into_names_empty_is_none(inn):
                     c = H.ctor_of(x)
                     return bool(c) and c[1] == "Some" and x.get("k") == "call" and H.local_of(x["args"][0]) and H.local_of(x["args"][0])[0] == lid
                 return is_none(th) and is_some_of(el), H.render(n)[:120]
+    # combinator spellings of the same table: `Some(cell).filter(|c| !c.is_empty())`, `(!cell.is_empty()).then_some(cell)` / `.then(|| cell)`
+    for n in H.walk(inn["body"]):
+        if n.get("k") != "mcall":
+            continue
+        if n["name"] == "filter" and len(n["args"]) == 1:
+            r = H.peel(n["recv"])
+            cl = H.peel(n["args"][0])
+            c = H.ctor_of(r)
+            if c and c[1] == "Some" and r.get("k") == "call" and H.local_of(r["args"][0]) and cl.get("k") == "closure" and len(cl["params"]) == 1:
+                pid = [i for i, _ in H.pat_bindings(cl["params"][0])]
+                body, neg = H.negate_peel(H.peel(cl["body"], refs=False))
+                while body.get("k") == "block" and not body.get("stmts") and "tail" in body:
+                    body, n2 = H.negate_peel(H.peel(body["tail"], refs=False))
+                    neg = neg != n2
+                if neg and body.get("k") == "mcall" and body["name"] == "is_empty" and H.local_of(body["recv"]) and pid \
+                        and H.local_of(body["recv"])[0] == pid[0]:
+                    return True, H.render(n)[:120]
+        if n["name"] in ("then_some", "then") and len(n["args"]) == 1 and (n["recv"].get("ty") == "bool"):
+            cnd, neg = H.negate_peel(H.peel(n["recv"], refs=False))
+            a = H.peel(n["args"][0])
+            if a.get("k") == "closure":
+                a = H.peel(a["body"])
+            if neg and cnd.get("k") == "mcall" and cnd["name"] == "is_empty" and H.local_of(cnd["recv"]) and H.local_of(a) \
+                    and H.local_of(a)[0] == H.local_of(cnd["recv"])[0]:
+                return True, H.render(n)[:120]
     return False, "no `if cell.is_empty()`"
 
 
